@@ -228,11 +228,13 @@ pub fn sites(tier: Tier) -> Vec<Site> {
     {
         use insim::insim::{Isi, IsiFlags};
         let intervals: Vec<Duration> = vec![Duration::ZERO, Duration::from_millis(1), Duration::from_millis(999), Duration::from_millis(65_535), Duration::from_micros(65_535_999),
+            // (below the field's resolution, and with a remainder)
+            Duration::from_nanos(1), Duration::from_micros(500), Duration::from_nanos(999_999), Duration::from_micros(16_667),
             Duration::from_millis(65_536), Duration::from_secs(70), Duration::from_secs(3600), Duration::from_secs(1 << 32), Duration::MAX];
         let flagsets = [IsiFlags::empty(), IsiFlags::MCI, IsiFlags::NLP, IsiFlags::MCI | IsiFlags::NLP, IsiFlags::all()];
         let n = (intervals.len() * flagsets.len() * 2 * 2) as u64;
         sites.push(Site::new("handshake-interval", n,
-            "handshake(ISI) on both implementations and modes x 10 intervals (5 in range, 5 beyond 65.535 s) x 5 flag sets: the wire interval is the millisecond floor, or the handshake is refused and no ISI leaves",
+            "handshake(ISI) on both implementations and modes x 14 intervals (9 in range incl. sub-millisecond ones, 5 beyond 65.535 s) x 5 flag sets, the ISI built by hand and by the public Builder: the wire interval is the millisecond floor, or the handshake is refused and no ISI leaves",
             move |i, acc| {
                 acc.eval();
                 let mut j = i as usize;
@@ -241,6 +243,14 @@ pub fn sites(tier: Tier) -> Vec<Site> {
                 let flags = flagsets[j % flagsets.len()]; j /= flagsets.len();
                 let interval = intervals[j % intervals.len()];
                 let isi = Isi { interval, flags, iname: "verif".into(), ..Default::default() };
+                // the Builder hands on the interval it was given (what goes on the wire is decided by the same codec)
+                {
+                    let built = guard(|| insim::tcp(std::net::SocketAddr::from(([127, 0, 0, 1], 29999))).isi_flags(flags).isi_interval(Some(interval)).isi().interval);
+                    if built != Ok(interval) {
+                        acc.violate(i, "C15|ISI|Interval|builder-changes-the-interval".into(), format!("Builder with flags {flags:?} and interval {interval:?}: isi() carries {built:?}"), json!({"site": "handshake-interval", "index": i}));
+                        return;
+                    }
+                }
                 let inner = Arc::new(std::sync::Mutex::new(crate::e2::world::Inner::default()));
                 let world = crate::e2::world::World(inner.clone());
                 let mode = if compressed { Mode::Compressed } else { Mode::Uncompressed };
